@@ -87,7 +87,8 @@ def confirm(out_dir, prop, name, wt):
 def check(name, tier):
     d = os.path.join(SEEDED, name)
     meta = json.load(open(os.path.join(d, "meta.json")))
-    prop = meta["property"]
+    # (a change written against one property may be the subject of another property's statement: meta names the check)
+    prop = meta.get("check_property") or meta["property"]
     # VERIF_SEEDED_REPO: a frozen scratch worktree of /repo's HEAD to patch instead of /repo itself (used while something
     # else needs /repo unchanged); the check then reads <worktree>/src through NUNAVUT_SRC
     repo = os.environ.get("VERIF_SEEDED_REPO", "/repo")
